@@ -276,10 +276,10 @@ def run(tier, seed):
                 tr2.append((rec, d.project()))
             batch.append(tr2)
             finals.append(d)
-        name = 'MC_Framing_' + inst.tag
+        name = 'Framing'
         core.validate_and_report(chk, name, OBS_FD, ACTIONS, batch, inst.cfg([], spec=False), INVS, 'c20',
                                  {'plan': plan}, 'chain plan %r' % (plan,), nproc=len(batch),
-                                 extra={name + '.tla': inst.module(name, 1)})
+                                 extra={'FramingData.tla': inst.module(name, 1)})
         # what the receiver resolved, translated back to the sender's numbers, equals the plan
         for d in finals:
             got = [[fdvals[x - 1] if 0 < x <= len(fdvals) else None for x in r] for r in d.project()['resolved']]
@@ -296,9 +296,9 @@ def run(tier, seed):
     st = dict(tr[j][1])
     st['nfd'] = st['nfd'] - 1
     tr[j] = (tr[j][0], st)
-    name = 'MC_Framing_' + inst.tag
+    name = 'Framing'
     rej, _ = core.validate_traces(name, framing.OBS, [tr], ACTIONS, cfg_consts=inst.cfg([], spec=False), nproc=1,
-                                  extra={name + '.tla': inst.module(name, 1)})
+                                  extra={'FramingData.tla': inst.module(name, 1)})
     chk.canary = {'what': 'one FdArrive event recorded without its effect', 'rejected': bool(rej)}
     chk.assumptions = ['descriptors are plain integers on in-memory transports (no kernel involved)',
                        'the stream-socket rule of the property is the enabling condition of Read in Framing.tla',
